@@ -95,7 +95,7 @@ claim("C19", "proof",
       "Theorems over the whole option-set space (case analysis, not enumeration): decision f = reject ⇔ conflict f (the statement's list, clause by "
       "clause); accepted ⇔ no conflict; failFirst ⇔ -e with -j/-p and neither -r nor --json; implied join; engine choice; -z/--fallback-oob never "
       "matter. Correspondence: the REAL binary run on the option sets (quick: seeded sample of 20 000 sets × 2 probes + re-orderings; thorough: all "
-      "2.6 M sets), status/stdout against the model's decision and against the statement.",
+      "276 480 sets: every combination of the options that can matter, -z / --fallback-oob / unknown argument drawn per set), status/stdout against the model's decision and against the statement.",
       TIE + " argv → option set is pico_args (trusted). Don't-cares: -l with -e; default bounds with -m (data-dependent failure, C15).",
       "Lean 4 decision-table theorem (cases + grind) + exhaustive CLI correspondence", "§4 C19")
 
